@@ -40,6 +40,15 @@ def main():
     demo = os.path.abspath(os.path.join(a.src, "demo.py"))
     meta = {"seed_id": a.seed_id, "breaks_property": a.pid, "source": "fresh sub-agent given only the property text and a scratch worktree",
             "needs_to_manifest": a.needs}
+    old_meta = os.path.join(VERIF, "seeded", a.seed_id, "meta.json")
+    if os.path.exists(old_meta):  # keep what an earlier (confirming) run recorded
+        prev = json.load(open(old_meta))
+        for k_ in ("demo_clean_rc", "patch_applies", "demo_patched_rc", "demo_patched_tail", "tests_patched", "tests_pass", "confirmed",
+                   "missed_before_strengthening"):
+            if k_ in prev:
+                meta[k_] = prev[k_]
+        if not a.needs and prev.get("needs_to_manifest"):
+            meta["needs_to_manifest"] = prev["needs_to_manifest"]
     if not a.skip_confirm:
         if not os.path.exists(WT):
             assert sh(["git", "-C", "/repo", "worktree", "add", "-q", "--detach", WT, "HEAD"]).returncode == 0
